@@ -1,8 +1,8 @@
 """C04 - state identity is faithful (DESIGN.md section 4, C04)."""
 import re
 
-from common import (adt_fields, bodies_with_closures, field_accesses, impl_method, outer_val,
-                    type_mentions)
+from common import (adt_fields, bodies_with_closures, field_accesses, impl_method, on_all_paths,
+                    outer_val, type_mentions)
 from mir import AnchorMissing, V, short
 
 LEVEL_TEXT = (
@@ -90,6 +90,27 @@ def rule_r1_r2(ctx, F, rule1='C04-R1', rule2='C04-R2', only_field=None):
                                   'differ only in `%s` are %s' %
                                   (adt['path'], meth, f, 'self' if ri == 0 else 'other', f,
                                    'fed to the hasher identically' if meth == 'hash' else 'reported equal'))
+            if meth == 'hash':
+                # every field must be fed on every path, not just on some
+                for f in want:
+                    if only_field and f != only_field:
+                        continue
+                    fed = []
+                    for bb_ in bodies_with_closures(F, body):
+                        for c in bb_.calls:
+                            for a in c.args:
+                                if a['k'] not in ('copy', 'move'):
+                                    continue
+                                ob, ov = outer_val(F, bb_, bb_.val(a))
+                                if ov.kind == 'arg' and ov.key == 1 and ov.fields()[:1] == ('.' + f,):
+                                    fed.append((bb_, c))
+                    if not fed:
+                        continue  # reported by the coverage instance above
+                    ok = any(on_all_paths(F, bb_, c.bb) for (bb_, c) in fed)
+                    ctx.check(ok, rule1, 'self.%s-on-every-path' % f, body,
+                              good='field `%s` is fed to the hasher on every path' % f,
+                              bad='%s::hash feeds field `%s` only on some paths (an early exit skips it): '
+                                  'values taking that path are hashed without it' % (adt['path'], f))
             reads[(adt['path'], meth)] = (set(f for (r, f, c) in acc if r == V('arg', 1)), body)
     if only_field:
         return
@@ -149,6 +170,7 @@ def rule_r3(ctx, F, rule='C04-R3'):
         bodies = bodies_with_closures(F, body)
         iterates = False
         feeds = []
+        partial = []
         for b in bodies:
             for c in b.calls:
                 if c.is_('HashSet::iter', 'HashMap::iter', 'Vec::iter', 'slice::iter',
@@ -163,7 +185,10 @@ def rule_r3(ctx, F, rule='C04-R3'):
                 if lenfeed:
                     root = hasher_root(F, b, c)
                     if root == V('arg', 2):
-                        feeds.append(c)
+                        if on_all_paths(F, b, c.bb):
+                            feeds.append(c)
+                        else:
+                            partial.append(c)
         if not iterates:
             ctx.ok(rule, 'delegates', body, '%s: collection fields are hashed by delegation to std '
                                             '(length-prefixed) impls' % adt['path'])
@@ -171,9 +196,12 @@ def rule_r3(ctx, F, rule='C04-R3'):
         ctx.check(bool(feeds), rule, 'length-prefix', body,
                   good='%s: feeds a length to the outer hasher at %s' %
                        (adt['path'], feeds[0].span if feeds else ''),
-                  bad='%s::hash iterates its collection and writes per-element data but never feeds '
-                      'a length to the outer hasher: adjacent collections are not prefix-free '
-                      '(({a},{}) and ({},{a}) hash equally)' % adt['path'])
+                  bad=('%s::hash feeds a length at %s but not on every path (some exit skips it, e.g. '
+                       'an early return for an empty collection): values taking that path feed nothing, '
+                       'so ({a},{}) and ({},{a}) hash equally' % (adt['path'], partial[0].span)) if partial else
+                      ('%s::hash iterates its collection and writes per-element data but never feeds '
+                       'a length to the outer hasher: adjacent collections are not prefix-free '
+                       '(({a},{}) and ({},{a}) hash equally)' % adt['path']))
 
 
 def rule_r4(ctx, F, rule='C04-R4'):
